@@ -32,10 +32,14 @@ type gtFn struct {
 	decl    *ast.FuncDecl
 	lit     *ast.FuncLit
 	obj     types.Object
+	varObj  *types.Var // a package level variable (whitelist entry "var X")
 	ftype   *ast.FuncType
 	body    []ast.Stmt
 	prefix  string // canonical text of the skipped prefix (Crit)
 	hasPre  bool
+	frag    bool
+	fragOut []*types.Var // variables a fragment hands back (besides out parameters)
+	skipped string       // canonical text of the top level statements left out (Skip)
 	info    *types.Info
 	srcFile string
 	srcLine int
@@ -53,11 +57,13 @@ type gtFn struct {
 	deps    map[*gtFn]bool
 
 	// state of one translation attempt
-	vars    map[*types.Var]*gtVar
-	names   map[string]bool
-	tmpN    int
-	monOps  int
-	loopCtx []*gtLoop
+	vars      map[*types.Var]*gtVar
+	names     map[string]bool
+	tmpN      int
+	monOps    int
+	freshVars map[*types.Var]bool
+	derefs    map[*types.Var]string // pointer variables already dereferenced in the current scope
+	building  bool
 }
 
 type gtBind struct {
@@ -76,7 +82,7 @@ var gtTmpRe = regexp.MustCompile(`^tmp[0-9]+$`)
 
 func (f *gtFn) freshName(base string) string {
 	base = gtSanitize(base)
-	if gtTmpRe.MatchString(base) {
+	if gtTmpRe.MatchString(base) || f.tr.globals[base] {
 		base += "_"
 	}
 	n := base
@@ -102,7 +108,7 @@ func (f *gtFn) declare(v *types.Var) *gtVar {
 	if gv, ok := f.vars[v]; ok {
 		return gv
 	}
-	gv := &gtVar{obj: v, t: f.tr.typeOf(v.Type())}
+	gv := &gtVar{obj: v, t: f.tr.typeOf(v.Type()), fresh: f.freshVars[v]}
 	if v.Name() == "_" {
 		gv.name = "_"
 	} else {
@@ -257,10 +263,8 @@ func (f *gtFn) exprAs(e ast.Expr, want *gtT) gtVal {
 			gtFail("%s: nil without a known type", f.pos(e))
 		}
 		switch want.k {
-		case gkPtr:
-			return gtVal{s: "None", t: want}
-		case gkMap, gkSlice:
-			return gtVal{s: "[]", t: want}
+		case gkPtr, gkMap, gkSlice, gkErr:
+			return gtVal{s: f.tr.zero(want), t: want}
 		}
 		gtFail("%s: nil of a type outside the subset", f.pos(e))
 	}
@@ -333,10 +337,44 @@ func (f *gtFn) ident(x *ast.Ident) gtVal {
 func (f *gtFn) globalVar(o *types.Var, at ast.Node) gtVal {
 	rel := strings.TrimPrefix(o.Pkg().Path(), f.tr.l.module+"/")
 	key := rel + "." + o.Name()
+	if vf, ok := f.tr.byObj[o]; ok {
+		// a whitelisted package level variable: its initialiser is a generated definition
+		if !vf.done {
+			f.tr.translate(vf)
+		}
+		if vf.err != "" {
+			gtFail("%s: package level variable %s could not be translated", f.pos(at), key)
+		}
+		f.deps[vf] = true
+		name := f.tr.qual(vf.pc.spec.Module, vf.coqName)
+		if vf.monadic {
+			pre, s := f.mon(nil, name)
+			return gtVal{pre: pre, s: s, t: vf.results}
+		}
+		return gtVal{s: name, t: vf.results}
+	}
 	if !gotransConstVars[key] {
 		gtFail("%s: package level variable %s is not in the list of variables read as constants", f.pos(at), key)
 	}
-	p, err := f.tr.l.load(rel)
+	init, p := f.tr.varInit(o, key, f.pos(at))
+	tv, ok := p.info.Types[init]
+	if !ok || tv.Value == nil {
+		gtFail("%s: initialiser of %s is not a constant expression", f.pos(at), key)
+	}
+	t := f.tr.typeOf(o.Type())
+	switch t.k {
+	case gkI64, gkI32, gkU64:
+		return gtVal{s: gtIntLit(tv.Value, t), t: t}
+	}
+	gtFail("%s: package level variable %s has a type outside the subset", f.pos(at), key)
+	return gtVal{}
+}
+
+// varInit returns the initialiser of a package level variable after checking that no non-test file
+// of its package assigns to it or takes its address
+func (tr *gotrans) varInit(o *types.Var, key, pos string) (ast.Expr, *gtPkg) {
+	rel := strings.TrimPrefix(o.Pkg().Path(), tr.l.module+"/")
+	p, err := tr.l.load(rel)
 	if err != nil {
 		gtFail("cannot load %s", rel)
 	}
@@ -377,22 +415,12 @@ func (f *gtFn) globalVar(o *types.Var, at ast.Node) gtVal {
 		})
 	}
 	if assigned {
-		gtFail("%s: package level variable %s is assigned (or its address taken) in its package: cannot be read as a constant", f.pos(at), key)
+		gtFail("%s: package level variable %s is assigned (or its address taken) in its package: cannot be read as a constant", pos, key)
 	}
 	if init == nil {
-		gtFail("%s: package level variable %s has no initialiser", f.pos(at), key)
+		gtFail("%s: package level variable %s has no initialiser", pos, key)
 	}
-	tv, ok := p.info.Types[init]
-	if !ok || tv.Value == nil {
-		gtFail("%s: initialiser of %s is not a constant expression", f.pos(at), key)
-	}
-	t := f.tr.typeOf(o.Type())
-	switch t.k {
-	case gkI64, gkI32, gkU64:
-		return gtVal{s: gtIntLit(tv.Value, t), t: t}
-	}
-	gtFail("%s: package level variable %s has a type outside the subset", f.pos(at), key)
-	return gtVal{}
+	return init, p
 }
 
 func (f *gtFn) unary(x *ast.UnaryExpr) gtVal {
@@ -599,7 +627,8 @@ func (f *gtFn) binary(x *ast.BinaryExpr) gtVal {
 	switch x.Op {
 	case token.LAND, token.LOR:
 		a := f.expr(x.X)
-		b := f.expr(x.Y)
+		var b gtVal
+		f.scoped(func() string { b = f.expr(x.Y); return "" })
 		if a.t.k != gkBool || b.t.k != gkBool {
 			gtFail("%s: && / || on non-booleans", f.pos(x))
 		}
@@ -646,6 +675,8 @@ func (f *gtFn) binary(x *ast.BinaryExpr) gtVal {
 			v := f.expr(other)
 			var s string
 			switch v.t.k {
+			case gkErr:
+				s = "negb " + gtPar(v.s)
 			case gkPtr:
 				s = "is_nil " + gtPar(v.s)
 			case gkMap, gkSlice:
@@ -708,6 +739,18 @@ func (f *gtFn) derefRec(e ast.Expr) ([]gtBind, string, *gtRec) {
 			}
 		}
 	}
+	var pv *types.Var
+	if id, ok := gtUnparen(e).(*ast.Ident); ok {
+		if v, ok := f.info.Uses[id].(*types.Var); ok {
+			if gv, ok := f.vars[v]; ok && gv.t.k == gkPtr && gv.t.elem.k == gkRec {
+				pv = v
+				if s, ok := f.derefs[v]; ok {
+					// the pointer was dereferenced earlier in this scope and not assigned since
+					return nil, s, gv.t.elem.rec
+				}
+			}
+		}
+	}
 	v := f.expr(e)
 	switch v.t.k {
 	case gkRec:
@@ -717,6 +760,9 @@ func (f *gtFn) derefRec(e ast.Expr) ([]gtBind, string, *gtRec) {
 			gtFail("%s: dereference of an opaque pointer", f.pos(e))
 		}
 		pre, s := f.mon(v.pre, "deref "+gtPar(v.s))
+		if pv != nil {
+			f.derefs[pv] = s
+		}
 		return pre, s, v.t.elem.rec
 	}
 	gtFail("%s: field access on a value that is not a struct", f.pos(e))
@@ -799,7 +845,7 @@ func (f *gtFn) sliceExpr(x *ast.SliceExpr) gtVal {
 		gtFail("%s: slice expression on a non-slice", f.pos(x))
 	}
 	pre := append([]gtBind{}, c.pre...)
-	lo, hi := "0", "(Z.of_nat (length "+gtPar(c.s)+"))"
+	lo, hi := "0", "(Z.of_nat (List.length "+gtPar(c.s)+"))"
 	if x.Low != nil {
 		v := f.expr(x.Low)
 		pre = append(pre, v.pre...)
@@ -851,7 +897,7 @@ func (f *gtFn) composite(x *ast.CompositeLit, addr bool) gtVal {
 					}
 				}
 			}()
-			ft = f.tr.typeOf(fv.Type())
+			ft = f.tr.fieldType(rec, fv)
 		}()
 		if ft == nil {
 			continue
@@ -867,7 +913,7 @@ func (f *gtFn) composite(x *ast.CompositeLit, addr bool) gtVal {
 			args = append(args, gtPar(v.s))
 		} else {
 			var z string
-			ft := f.tr.typeOf(rec.st.Field(i).Type())
+			ft := f.tr.fieldType(rec, rec.st.Field(i))
 			z = f.tr.zero(ft)
 			args = append(args, gtPar(z))
 		}
@@ -938,7 +984,7 @@ func (f *gtFn) builtin(x *ast.CallExpr, name string) gtVal {
 		if v.t.k != gkMap && v.t.k != gkSlice {
 			gtFail("%s: len of this type is outside the subset", f.pos(x))
 		}
-		return gtVal{pre: v.pre, s: "Z.of_nat (length " + gtPar(v.s) + ")", t: gtI64}
+		return gtVal{pre: v.pre, s: "Z.of_nat (List.length " + gtPar(v.s) + ")", t: gtI64}
 	case "min", "max":
 		if len(x.Args) < 2 {
 			gtFail("%s: %s with one argument", f.pos(x), name)
@@ -977,7 +1023,7 @@ func (f *gtFn) builtin(x *ast.CallExpr, name string) gtVal {
 					}
 				}
 			}
-			return gtVal{s: "[]", t: t}
+			return gtVal{s: f.tr.zero(t), t: t}
 		case gkSlice:
 			if len(x.Args) != 2 {
 				gtFail("%s: make of a slice with a capacity is outside the subset", f.pos(x))
@@ -993,10 +1039,21 @@ func (f *gtFn) builtin(x *ast.CallExpr, name string) gtVal {
 
 // call translates a call in expression position (stmt=false: the callee may not have out parameters)
 func (f *gtFn) call(x *ast.CallExpr, stmt bool) gtVal {
+	fun := gtUnparen(x.Fun)
+	// fmt.Errorf(...) / errors.New(...): a non-nil error; the message arguments are not evaluated
+	if sel, ok := fun.(*ast.SelectorExpr); ok {
+		if id, ok := sel.X.(*ast.Ident); ok {
+			if pn, ok := f.info.Uses[id].(*types.PkgName); ok {
+				ip := pn.Imported().Path()
+				if (ip == "fmt" && sel.Sel.Name == "Errorf") || (ip == "errors" && sel.Sel.Name == "New") {
+					return gtVal{s: "true", t: gtErrT}
+				}
+			}
+		}
+	}
 	if tv, ok := f.info.Types[x.Fun]; ok && tv.IsType() {
 		return f.conversion(x, f.tr.typeOf(tv.Type))
 	}
-	fun := gtUnparen(x.Fun)
 	if id, ok := fun.(*ast.Ident); ok {
 		if b, ok := f.info.Uses[id].(*types.Builtin); ok {
 			return f.builtin(x, b.Name())
@@ -1062,7 +1119,7 @@ func (f *gtFn) resolveCallee(x *ast.CallExpr) (*gtFn, ast.Expr) {
 	if !ok {
 		gtFail("%s: call of %s, which is not a whitelisted function", f.pos(x), fnObj.Name())
 	}
-	if callee == f {
+	if callee == f || callee.building {
 		gtFail("%s: recursion is outside the subset", f.pos(x))
 	}
 	if !callee.done {
